@@ -419,7 +419,7 @@ def gen_trace(seed: int, tier: str) -> dict:
     start = {"deck": rs.choice(["default.pptx"] * 4 + TEXT_DECKS), "form": rs.choice(["stream", "path", "dir"])}
     events, sw = common.gen_history(
         seed, fault_rate=common.fault_arm(seed), n_events=n, families=["c04", "text", "tables", "geometry", "dml"], always=("c04", "text"),
-        ckpt=0.08, reopen=0.08, restart=0.04, observe=0.02, jump=0.0, fork=0.0,
+        ckpt=0.08, reopen=0.08, restart=0.04, observe=0.02, jump=0.0, fork=0.03,
         op_filter=lambda name: name not in ("cell_merge", "cell_split", "bad_call"))
     # warm-up for table cells and notes
     return {"property": ID, "seed": seed, "tier": tier, "config": {"families": sw["families"], "max_slides": 6, "max_shapes": 20},
